@@ -46,7 +46,8 @@ impl SelectiveAck {
     }
 
     pub fn as_bytes(&self) -> &[u8] {
-        self.data.as_raw_slice()
+        // Only the bytes that were received / built, so that parse -> serialize -> parse is stable.
+        &self.data.as_raw_slice()[..self.len / 8]
     }
 
     pub fn deserialize(bytes: &[u8]) -> Self {
@@ -61,7 +62,8 @@ impl SelectiveAck {
         data.as_raw_mut_slice()[..len].copy_from_slice(&bytes[..len]);
         Self {
             data,
-            len: bytes.len() * 8,
+            // Bits past the stored ones are dropped, so they don't count towards the length.
+            len: len * 8,
         }
     }
 
